@@ -134,6 +134,21 @@ fn gen_bytes(rng: &mut Rng) -> Vec<u8> {
                 }
             }
             6 => b.push(0),
+            7 if rng.chance(1, 2) => {
+                // control characters and bytes around 0x80 right in front of the terminator / at any offset modulo 4
+                // (the bytes a word-at-a-time NUL search gets wrong)
+                for _ in 0..rng.below(6) {
+                    b.push(b'a' + rng.below(26) as u8);
+                }
+                b.push(*rng.pick(&[0x01u8, 0x01, 0x02, 0x7f, 0x1f]));
+                if rng.chance(1, 2) {
+                    b.push(*rng.pick(&[0x01u8, b'z', 0x7f]));
+                }
+                b.push(0);
+                while b.len() % 4 != 0 && rng.chance(3, 4) {
+                    b.push(0);
+                }
+            }
             _ => {
                 // a valid number of a random typed kind
                 let s = snap();
